@@ -144,7 +144,8 @@ class RDFLibAdapter(Adapter):
         language: str | None = None,
         datatype: str | None = None,
     ) -> rdflib.Literal:
-        return rdflib.Literal(lex, lang=language, datatype=datatype)
+        # keep the lexical form exactly as it is in the stream (no rdflib normalization)
+        return rdflib.Literal(lex, lang=language, datatype=datatype, normalize=False)
 
     @override
     def namespace_declaration(self, name: str, iri: str) -> Prefix:
